@@ -111,6 +111,10 @@ var boundOne = addTo.bind(null, box);               // one bound argument
 var tArgs = (function(a, b){ return arguments })(1, 2);
 var tDate = new Date(0), tRe = /a/g, tErr = new Error("t"), tStr = new String("s"), tNum = new Number(1);
 var tAcc = {}; Object.defineProperty(tAcc, "v", {get: function(){ return ++box.n }, set: function(x){ box.n = x }, configurable: true, enumerable: true});
+// strings holding an unpaired surrogate are kept as UTF-16 code units ([]uint16), and a Value is copied into a
+// copy as it is: the backing array is shared by template and copies, with spare capacity when the string came
+// from a concatenation, a slice or unescape (seed N10: `+` appending in place)
+var tU1 = "ab" + String.fromCharCode(0xD800), tU2 = ("xyz" + String.fromCharCode(0xD801) + "q").slice(0, 4), tU3 = unescape("z%uD802");
 bump();`
 
 // what every copy does with the template's objects after its own program
@@ -118,6 +122,7 @@ const templateUse = `; [String(bump()) + adder(), boundBox("e", "m"), boundBox(T
  (tArgs[0] = T.count, tArgs[0] + tArgs.length), (String(tArgs[1]) + (delete tArgs[1]) + String(tArgs[1]) + (1 in tArgs)), (delete T.items[0], T.items.push(T.count), T.items.join()),
  (T.nested.deep[1].x += 1), (tDate.setTime(T.count), tDate.getTime()), (tRe.test("aa"), tRe.lastIndex),
  (tErr.message += "!", tErr.message), (tStr.p = 1, Object.keys(tStr).join()), tAcc.v, (tAcc.v = 5, box.n),
+ (function(){ var s = 0, t; for (var i = 0; i < 40; i++) { t = tU1 + String.fromCharCode(0xDC00 + i); s += t.charCodeAt(3) + t.length; t = tU2; t += String.fromCharCode(0xDC40 + i); s += t.charCodeAt(4); s += (tU3 + "k" + i).length + (tU3 + String.fromCharCode(0xDC80 + i)).charCodeAt(2) } return s })(),
  Object.keys(T).join()].join(";")`
 
 // run program i according to mode on a runtime prepared by prep; returns the outcome
